@@ -114,7 +114,6 @@ as with Antimirov's partial derivatives). -/
 def mkCat : Rx → Rx → Rx
   | .empty, _ => .empty
   | .eps, b => b
-  | .alt x y, b => mkAlt (mkCat x b) (mkCat y b)
   | .cat x y, b => mkCat x (mkCat y b)
   | a, b => if b.isEmpty then .empty else if b.isEps then a else .cat a b
 
